@@ -1,5 +1,186 @@
-(** Properties_C09.v — statements only (under construction). *)
-From Coq Require Import List String Bool Arith.
-From LC Require Import HeapDefs.
-Example C09_placeholder : True. Proof. exact I. Qed.
-Print Assumptions C09_placeholder.
+(** Properties_C09.v — statements only.  C09: ownership invariants survive any API history; bad arguments never crash.
+
+    Model: HeapDefs.v ([step fixed seq], [fixed = true] is /repo with the C09 "fix:" commits, [seq] the structural
+    equality used by the by-pointer lookups — an arbitrary function in every theorem below).
+    [Inv] (HeapInv.v) is the inductive invariant: a listed child names its lister; no list has a duplicate; the parent
+    relation has no cycle; equivalence is symmetric and recorded once; a parent link is backed by a listing; lists are
+    well-typed.  [WF] (HeapProofs.v) is the observer's well-formedness of DESIGN.md (Appendix B), relative to liveness. *)
+From Coq Require Import List String Bool Arith Relations.
+From LC Require Import HeapDefs HeapBase HeapInv HeapOps HeapProofs HeapTotal HeapBad HeapFrame HeapWitness.
+Import ListNotations.
+
+(** step_wf — every one of the 40 op constructors preserves the invariant, for every state, every structural-equality
+    oracle, under the property's carve-out (the call does not add an entity to the container that already lists it). *)
+Theorem C09_step_wf : forall seq s o s' r,
+  Inv s -> readds s o = false -> step true seq s o = Ok s' r -> Inv s'.
+Proof. exact HeapProofs.step_inv. Qed.
+Print Assumptions C09_step_wf.
+
+(** the invariant gives the observable well-formedness: children's parent is the lister, no double listing, no two
+    listers, acyclic ancestry, symmetric equivalence — all relative to what is alive *)
+Theorem C09_inv_wf : forall s, Inv s -> WF s.
+Proof. exact HeapProofs.inv_wf. Qed.
+Print Assumptions C09_inv_wf.
+
+Theorem C09_step_WF : forall seq s o s' r,
+  Inv s -> readds s o = false -> step true seq s o = Ok s' r -> WF s'.
+Proof. intros seq s o s' r I N H. apply HeapProofs.inv_wf. exact (HeapProofs.step_inv seq s o s' r I N H). Qed.
+Print Assumptions C09_step_WF.
+
+(** history_wf — induction over arbitrary op lists from the freshly created universe *)
+Theorem C09_init_inv : forall u, Inv (init u).
+Proof. exact HeapProofs.init_inv. Qed.
+Print Assumptions C09_init_inv.
+
+Theorem C09_history_wf : forall seq u ops s',
+  no_readds seq (init u) ops -> run true seq (init u) ops = Some s' -> Inv s' /\ WF s'.
+Proof.
+  intros seq u ops s' N H. assert (I : Inv s') by exact (HeapProofs.run_inv seq ops (init u) s' (HeapProofs.init_inv u) N H).
+  split; [exact I|exact (HeapProofs.inv_wf s' I)].
+Qed.
+Print Assumptions C09_history_wf.
+
+(** no_crash — no call of the repaired object model crashes in a state satisfying the invariant; no history does *)
+Theorem C09_no_crash : forall seq s o, Inv s -> step true seq s o <> Crash.
+Proof. exact HeapTotal.no_crash. Qed.
+Print Assumptions C09_no_crash.
+
+Theorem C09_history_no_crash : forall seq u ops, no_readds seq (init u) ops -> run true seq (init u) ops <> None.
+Proof. intros seq u ops N. exact (HeapTotal.run_no_crash seq ops (init u) (HeapProofs.init_inv u) N). Qed.
+Print Assumptions C09_history_no_crash.
+
+(** has_ancestor_terminates — fuel above |objs| is never used up: the recursion of hasAncestor ends *)
+Theorem C09_has_ancestor_terminates : forall s, Inv s -> forall f x a,
+  f > List.length (objs s) -> has_ancestor s f x a <> None.
+Proof. exact HeapTotal.has_ancestor_terminates. Qed.
+Print Assumptions C09_has_ancestor_terminates.
+
+(** bad_arg_noop — null / one past the end / unknown name / neither a child nor equal to one: the state is unchanged
+    and the refusal value (false, null) is returned.  Holds in EVERY state (no invariant needed). *)
+Theorem C09_bad_arg_noop : forall seq s o, bad_arg true seq s o = true ->
+  step true seq s o = Ok s (refusal o) \/ step true seq s o = Ok s RIll.
+Proof. exact HeapBad.bad_arg_noop. Qed.
+Print Assumptions C09_bad_arg_noop.
+
+(** affects_only_target — remove / take: only the container and the erased child change *)
+Theorem C09_detach_frame : forall s K k i s' x, detach_at s K k i = Some (s', x) ->
+  nth_error (children s K k) i = Some x /\ forall y, y <> k -> y <> x -> getd s' y = getd s y.
+Proof. exact HeapFrame.detach_frame. Qed.
+Print Assumptions C09_detach_frame.
+
+(** a child handed over by pointer is removed itself, whatever look-alikes precede it (all four kinds) *)
+Theorem C09_remove_child_exact : forall seq s k x,
+  (recv s k CVars = true -> arg_ok s x KVar = true -> In x (children s CVars k) ->
+     exists i, nth_error (children s CVars k) i = Some x /\
+               step true seq s (RemoveVariablePtr k (Some x)) = Ok (gc (detached s CVars k i x)) (RBool true)) /\
+  (recv s k CResets = true -> arg_ok s x KReset = true -> In x (children s CResets k) ->
+     exists i, nth_error (children s CResets k) i = Some x /\
+               step true seq s (RemoveResetPtr k (Some x)) = Ok (gc (detached s CResets k i x)) (RBool true)) /\
+  (recv s k CUnits = true -> arg_ok s x KUnits = true -> In x (children s CUnits k) ->
+     exists i, nth_error (children s CUnits k) i = Some x /\
+               step true seq s (RemoveUnitsPtr k (Some x)) = Ok (gc (detached s CUnits k i x)) (RBool true)) /\
+  (recv s k CComps = true -> arg_ok s x KComp = true -> In x (children s CComps k) ->
+     exists i, nth_error (children s CComps k) i = Some x /\
+               step true seq s (RemoveComponentPtr k (Some x) false) = Ok (gc (detached s CComps k i x)) (RBool true)).
+Proof. exact HeapWitness.step_remove_child_exact. Qed.
+Print Assumptions C09_remove_child_exact.
+
+(** an object that is not a child is refused or matched to a structurally equal child, whose own links are updated *)
+Theorem C09_remove_nonchild_matched : forall seq s K k x s', ~ In x (children s K k) ->
+  remove_ptr_local true seq s K k x = Some s' ->
+  exists i y, nth_error (children s K k) i = Some y /\ seq s y x = true /\ s' = detached s K k i y.
+Proof. exact HeapFrame.remove_nonchild_matched. Qed.
+Print Assumptions C09_remove_nonchild_matched.
+
+(** add / move: besides the new container and the moved object only the previous parent changes ... *)
+Theorem C09_attach_frame : forall seq s K k c, Inv s -> kindd s c = child_kind K ->
+  forall y, y <> k -> y <> c -> parent_of s c <> Some y -> getd (attach true seq s K k c) y = getd s y.
+Proof. exact HeapFrame.attach_frame. Qed.
+Print Assumptions C09_attach_frame.
+
+(** ... and it loses exactly the moved object *)
+Theorem C09_attach_old_parent : forall seq s K k c p, Inv s -> kindd s c = child_kind K -> parent_of s c = Some p -> p <> k ->
+  exists i, nth_error (children s K p) i = Some c /\ leave_parent true seq s K c (Some k) = detached s K p i c.
+Proof. exact HeapFrame.attach_old_parent. Qed.
+Print Assumptions C09_attach_old_parent.
+
+(** replace: container, replaced child, replacement, the replacement's previous parent — nothing else *)
+Theorem C09_replace_frame : forall seq s K k io c s' b, Inv s -> kindd s c = child_kind K ->
+  replace_at true seq s K k io (Some c) = LDone (s', b) ->
+  exists i old, io = Some i /\ nth_error (children s K k) i = Some old /\
+    forall y, y <> k -> y <> old -> y <> c -> parent_of s c <> Some y -> getd s' y = getd s y.
+Proof. exact HeapFrame.replace_frame. Qed.
+Print Assumptions C09_replace_frame.
+
+(** destruction touches an object only by dropping its references to destroyed objects (or destroying it) *)
+Theorem C09_gc_frame : forall live s x, getd (gc_with live s) x = gc_obj live (live x) (getd s x).
+Proof. exact HeapInv.getd_gc_with. Qed.
+Print Assumptions C09_gc_frame.
+
+(** "equivalence never yields destroyed variables", partial: right after a call that may destroy objects, every variable
+    listed as equivalent was alive when the call finished.
+    NOT PROVED: that [alive (gc s) = alive s] (destruction does not change reachability), hence that this is an invariant
+    of all histories for liveness as recomputed later; the correspondence run compares equivalentVariable(i) of the real
+    objects with the model's lists after every op instead, and ASan watches the accesses. *)
+Theorem C09_equivalents_alive_partial : forall s a b, In b (eqs_of (gc s) a) -> alive s b = true /\ alive s a = true.
+Proof. exact HeapWitness.eqs_live_after_gc. Qed.
+Print Assumptions C09_equivalents_alive_partial.
+
+(** the code before the fix commits violated the property: four families, witnesses by computation *)
+Theorem C09_unfixed_lookalike_removal_refuted :
+  exists s', run false seq_conc (init U1) [AddComponent 0 (Some 1); AddComponent 0 (Some 2); RemoveComponentPtr 0 (Some 2) false] = Some s' /\
+             children s' CComps 0 = [2] /\ parent_of s' 2 = None /\ parent_of s' 1 = Some 0.
+Proof. exact HeapWitness.unfixed_lookalike_removal. Qed.
+Print Assumptions C09_unfixed_lookalike_removal_refuted.
+
+Theorem C09_unfixed_lookalike_move_refuted :
+  exists s', run false seq_conc (init U2) [AddVariable 0 (Some 2); AddVariable 0 (Some 3); AddVariable 1 (Some 3)] = Some s' /\
+             children s' CVars 0 = [3] /\ children s' CVars 1 = [3].
+Proof. exact HeapWitness.unfixed_lookalike_move. Qed.
+Print Assumptions C09_unfixed_lookalike_move_refuted.
+
+Theorem C09_unfixed_self_parent_refuted :
+  (exists s', run false seq_conc (init U1) [AddComponent 0 (Some 1); AddComponent 1 (Some 1)] = Some s' /\
+              parent_of s' 1 = Some 1 /\ children s' CComps 1 = [1]) /\
+  run false seq_conc (init U1) [AddComponent 0 (Some 1); AddComponent 1 (Some 1); AddComponent 1 (Some 2)] = None.
+Proof. exact HeapWitness.unfixed_self_parent. Qed.
+Print Assumptions C09_unfixed_self_parent_refuted.
+
+Theorem C09_unfixed_null_refuted :
+  step false seq_conc (init U2) (AddEquivalence4 (Some 2) None) = Crash /\
+  (exists s1 r, step false seq_conc (init U1) (AddComponent 0 (Some 1)) = Ok s1 r /\
+                step false seq_conc s1 (ReplaceComponentIdx 0 0 None) = Crash) /\
+  (exists s1 r, step false seq_conc (init U2) (AddUnits 6 (Some 4)) = Ok s1 r /\
+                step false seq_conc s1 (ReplaceUnitsIdx 6 0 None) = Crash).
+Proof. exact HeapWitness.unfixed_null_crashes. Qed.
+Print Assumptions C09_unfixed_null_refuted.
+
+Theorem C09_unfixed_replace_refuted :
+  exists s', run false seq_conc (init U1) [AddComponent 0 (Some 1); AddComponent 3 (Some 2); ReplaceComponentIdx 0 0 (Some 2)] = Some s' /\
+             children s' CComps 0 = [2] /\ children s' CComps 3 = [2].
+Proof. exact HeapWitness.unfixed_replace_two_listers. Qed.
+Print Assumptions C09_unfixed_replace_refuted.
+
+(** non-vacuity: the same histories on the repaired model move, destroy and refuse as they should, and are inside the
+    claim; bad arguments other than null exist; a re-add really lists twice *)
+Example C09_nonvacuous_histories : no_readds seq_conc (init U1) H1 /\ no_readds seq_conc (init U2) H2.
+Proof. exact HeapWitness.histories_in_claim. Qed.
+Print Assumptions C09_nonvacuous_histories.
+
+Example C09_nonvacuous_bad_args :
+  bad_arg true seq_conc (init U2) (RemoveVariablePtr 0 (Some 2)) = true /\
+  bad_arg true seq_conc (init U2) (TakeVariableIdx 0 0) = true /\
+  bad_arg true seq_conc (init U2) (RemoveUnitsName 6 "zz") = true /\
+  bad_arg true seq_conc (init U1) (RemoveComponentName 0 "a" true) = true /\
+  (exists s', run true seq_conc (init U2) [AddVariable 0 (Some 2)] = Some s' /\
+              bad_arg true seq_conc s' (RemoveVariablePtr 0 (Some 3)) = false /\
+              bad_arg true seq_conc s' (RemoveVariablePtr 1 (Some 2)) = true /\
+              bad_arg true seq_conc s' (TakeVariableIdx 0 1) = true).
+Proof. exact HeapWitness.bad_arg_examples. Qed.
+Print Assumptions C09_nonvacuous_bad_args.
+
+Example C09_readd_is_outside :
+  exists s', run true seq_conc (init U1) [AddComponent 0 (Some 1); AddComponent 0 (Some 1)] = Some s' /\
+             children s' CComps 0 = [1; 1] /\ readds (init U1) (AddComponent 0 (Some 1)) = false.
+Proof. exact HeapWitness.readd_lists_twice. Qed.
+Print Assumptions C09_readd_is_outside.
